@@ -62,6 +62,8 @@ pub const FRAGS: &[Frag] = &[
     f("clash_plain", "    uint256 shared$ = 5;\n"),
     f("clash_private", "    uint256 private shared$;\n    function setShared$(uint256 v) public {\n        shared$ = v;\n    }\n"),
     f("clash_constant", "    uint256 public constant shared$ = 1;\n"),
+    // writes the shared name without declaring it (an heir of the declaring contract would)
+    f("clash_writer", "    function pokeShared$(uint256 v) public {\n        shared$ = v;\n    }\n"),
     f("clash_address", "    address internal shared$;\n    function whoShared$() public view returns (address) {\n        return shared$;\n    }\n"),
     // constructs beyond plain functions and state variables
     f("modifier_guard", "    modifier onlyPos$(uint256 a) {\n        require(a > 0, \"neg\");\n        _;\n    }\n    function mg$(uint256 a) public onlyPos$(a) {\n    }\n"),
